@@ -52,6 +52,18 @@ func updateAbstain(ctx sdk.Context, k keeper.Keeper, proposal types.Proposal) {
 	}
 }
 
+// executeHandler runs a proposal handler; a handler that panics fails the proposal
+// (its cached state changes are discarded like those of any failing handler)
+// instead of aborting the end-blocker, which would halt the chain.
+func executeHandler(ctx sdk.Context, handler govTypes.Handler, content govTypes.Content) (err error) {
+	defer func() {
+		if r := recover(); r != nil {
+			err = fmt.Errorf("proposal handler panicked: %v", r)
+		}
+	}()
+	return handler(ctx, content)
+}
+
 func processActiveProposal(ctx sdk.Context, k keeper.Keeper, proposal types.Proposal) bool {
 	var (
 		tagValue     string
@@ -90,7 +102,7 @@ func processActiveProposal(ctx sdk.Context, k keeper.Keeper, proposal types.Prop
 		// The proposal handler may execute state mutating logic depending on the
 		// proposal content. If the handler fails, no state mutation is written and
 		// the error message is logged.
-		err := handler(cacheCtx, proposal.GetContent())
+		err := executeHandler(cacheCtx, handler, proposal.GetContent())
 		if err == nil {
 			proposal.Status = types.StatusPassed
 			tagValue = govTypes.AttributeValueProposalPassed
@@ -154,7 +166,7 @@ func processSecurityVote(ctx sdk.Context, k keeper.Keeper, proposal types.Propos
 		// The proposal handler may execute state mutating logic depending on the
 		// proposal content. If the handler fails, no state mutation is written and
 		// the error message is logged.
-		err := handler(cacheCtx, proposal.GetContent())
+		err := executeHandler(cacheCtx, handler, proposal.GetContent())
 		if err == nil {
 			proposal.Status = types.StatusPassed
 			tagValue = govTypes.AttributeValueProposalPassed
